@@ -931,7 +931,14 @@ class ICalendarFile(File):
                     pass
                 else:
                     if p is not None:
-                        yield p.to_ical()
+                        dt = getattr(p, "dt", None)
+                        if isinstance(dt, datetime) and dt.utcoffset() is not None:
+                            # Index values carry no parameters, so a value
+                            # qualified by TZID is stored as the instant it
+                            # denotes rather than as a floating time.
+                            yield vDDDTypes(dt.astimezone(timezone.utc)).to_ical()
+                        else:
+                            yield p.to_ical()
             else:
                 raise AssertionError(f"segments: {segments!r}")
 
